@@ -81,6 +81,22 @@ def install_scan_hook():
     rl.update_entry_for_path = hooked
 
 
+class NsTime(float):
+    """A time stamp that remembers its exact nanosecond value."""
+
+    def __new__(cls, ns):
+        self = float.__new__(cls, ns / 1e9)
+        self.ns = ns
+        return self
+
+
+def utime(path, mt):
+    if isinstance(mt, NsTime):
+        os.utime(path, ns=(mt.ns, mt.ns))
+    else:
+        os.utime(path, (mt, mt))
+
+
 def set_tz(tz):
     os.environ['TZ'] = tz
     time.tzset()
@@ -147,12 +163,12 @@ def gen_round(rng, nops):
                                         'same', 'same', 'add-subtree', 'edit-sub-dist']),
                     'pick': rng.randrange(1 << 20), 'seed': rng.randrange(1 << 30),
                     'when': rng.choice(['older', 'equal', '+1s', '+1h', '+10h', 'now',
-                                        '+1s', '+30m', '+10ms'])})
+                                        '+1s', '+30m', '+10ms', '+1ns', '+100ns'])})
     return ops
 
 
 WHEN = {'older': -3600, 'equal': 0, '+10ms': 0.01, '+1s': 1, '+30m': 1800, '+1h': 3600,
-        '+10h': 36000}
+        '+10h': 36000, '+1ns': 1e-9, '+100ns': 1e-7}
 
 
 def apply_round(rootA, rootB, ops, tprev):
@@ -179,12 +195,17 @@ def final_constrained(rootA, before, tprev):
             continue
         with open(p, 'rb') as f:
             new = f.read()
-        if new != old and len(new) == len(old) and os.stat(p).st_mtime <= tprev:
+        if new != old and len(new) == len(old) and \
+                os.stat(p).st_mtime_ns <= int(tprev) * 10**9:
             return False
     return True
 
 
+_fine_files = set()
+
+
 def _apply_ops(rootA, rootB, ops, tprev):
+    _fine_files.clear()
     constrained = True
     modified = False
     before = {}
@@ -197,6 +218,9 @@ def _apply_ops(rootA, rootB, ops, tprev):
         k = op['kind']
         when = op['when']
         mt = None if when == 'now' else tprev + WHEN[when]
+        if when in ('+1ns', '+100ns'):
+            # beyond what a float can hold next to 1.7e9: set it in nanoseconds
+            mt = NsTime(int(tprev) * 10**9 + int(round(WHEN[when] * 10**9)))
         if k == 'add':
             name = 'new%d' % (op['pick'] % 1000)
             d = os.path.dirname(files[op['pick'] % len(files)]) if files else ''
@@ -206,7 +230,7 @@ def _apply_ops(rootA, rootB, ops, tprev):
                 with open(os.path.join(r, rel), 'wb') as f:
                     f.write(data)
                 if mt is not None:
-                    os.utime(os.path.join(r, rel), (mt, mt))
+                    utime(os.path.join(r, rel), mt)
             modified = True
             continue
         if k == 'edit-sub-dist':
@@ -228,7 +252,7 @@ def _apply_ops(rootA, rootB, ops, tprev):
                 data = data[:j] + (b'0' if data[j:j + 1] != b'0' else b'1') + data[j + 1:]
                 with open(os.path.join(r, mrel), 'wb') as f:
                     f.write(data)
-                os.utime(os.path.join(r, mrel), (mt, mt))
+                utime(os.path.join(r, mrel), mt)
             modified = True
             continue
         if k == 'add-subtree':
@@ -267,7 +291,7 @@ def _apply_ops(rootA, rootB, ops, tprev):
                     with open(os.path.join(r, dn, nm), 'wb') as f:
                         f.write(data)
                     if mt is not None:
-                        os.utime(os.path.join(r, dn, nm), (mt, mt))
+                        utime(os.path.join(r, dn, nm), mt)
             modified = True
             continue
         if not files:
@@ -278,6 +302,8 @@ def _apply_ops(rootA, rootB, ops, tprev):
                 os.unlink(os.path.join(r, rel))
             modified = True
         elif k in ('same', 'other'):
+            if when in ('+1ns', '+100ns'):
+                _fine_files.add(rel)
             with open(os.path.join(rootA, rel), 'rb') as f:
                 old = f.read()
             if k == 'same':
@@ -290,14 +316,14 @@ def _apply_ops(rootA, rootB, ops, tprev):
                 with open(os.path.join(r, rel), 'wb') as f:
                     f.write(new)
                 if mt is not None:
-                    os.utime(os.path.join(r, rel), (mt, mt))
+                    utime(os.path.join(r, rel), mt)
             modified = True
             if k == 'same' and mt is not None and mt <= tprev:
                 constrained = False
         else:
             if mt is not None:
                 for r in (rootA, rootB):
-                    os.utime(os.path.join(r, rel), (mt, mt))
+                    utime(os.path.join(r, rel), mt)
     return final_constrained(rootA, before, tprev), modified
 
 
@@ -413,7 +439,26 @@ def run_history(ctx, d, case):
                 diff = sorted(k for k in set(ma) | set(mb) if ma.get(k) != mb.get(k))
                 la = set(ma.get(diff[0]) or [])
                 lb = set(mb.get(diff[0]) or [])
+                # known finding: a same-size change whose mtime is later than the
+                # TIMESTAMP by less than a float can resolve (only when every differing
+                # file entry belongs to such a file)
+                changed = set()
+                for mk in diff:
+                    mdir = os.path.dirname(mk)
+                    for ln in set(ma.get(mk) or []) ^ set(mb.get(mk) or []):
+                        f = ln.split(' ')
+                        if f[0] != 'MANIFEST':
+                            changed.add((mdir + '/' if mdir else '') + f[1])
+                def within_float_resolution(rel):
+                    try:
+                        d_ns = os.stat(os.path.join(rootA, rel)).st_mtime_ns \
+                            - int(tprev) * 10**9
+                    except OSError:
+                        return False
+                    return 0 < d_ns < 1000
+                fine = bool(changed) and all(within_float_resolution(x) for x in changed)
                 ctx.violation('incremental-differs-from-full:' + (
+                    'mtime-within-float-resolution-of-timestamp' if fine else
                     'west-of-utc' if tz in ('XXX8', 'XXX12') else
                     'east-of-utc' if tz != 'UTC' else 'utc'),
                     'round %d under TZ=%s: Manifest %r differs; only incremental: %r; '
